@@ -1,7 +1,7 @@
 //@ unit: C05.unwind_loop
 //@ props: C05
 //@ source: src/debugger/debugee/dwarf/unwind.rs
-//@ fn: DwarfUnwinder::unwind
+//@ fn: DwarfUnwinder::unwind, DwarfUnwinder::restore_registers_at_frame
 //@ assume: ghost model of the real call stack: `frames(debugee, pid)` is the sequence of instruction pointers of the active call chain, innermost first, for all frames with unwind information, and `cfas(..)` their canonical frame addresses, strictly increasing (the stack grows downwards, so every caller's CFA is above its callee's). UnwindContext::new / ::next / return_address (gimli CFI lookup and register rules: external; their register carriage is covered by the Kani units of C05) walk this chain one frame at a time; FrameSpan::new records the location's pc; the HashSet is replaced by a ghost-set recorder with std's insert contract
 //@ notcovered: CFI row lookup and register-rule evaluation (UnwindContext::new), symbolisation of frames, restore_registers_at_frame, frame CFA reporting
 use vstd::prelude::*;
@@ -46,6 +46,10 @@ impl<'a> UnwindContext<'a> {
             r is Some ==> r->Some_0.0 == frames(self.debugee, self.location.pid)[self.depth@ + 1],
     { unimplemented!() }
 
+    /// the register file as restored for this frame (ghost tag: which activation it belongs to)
+    #[verifier::external_body]
+    pub fn registers(&self) -> (r: DwarfRegisterMap) ensures r.of_frame@ == self.depth@, { unimplemented!() }
+
     #[verifier::external_body]
     pub fn next(previous_ucx: UnwindContext<'a>, ecx: &ExplorationContext) -> (r: Result<Option<UnwindContext<'a>>, DbgError>)
         requires previous_ucx.depth@ + 1 < frames(previous_ucx.debugee, previous_ucx.location.pid).len(),
@@ -54,6 +58,16 @@ impl<'a> UnwindContext<'a> {
             && r->Ok_0->Some_0.cfa.0 == cfas(previous_ucx.debugee, previous_ucx.location.pid)[previous_ucx.depth@ + 1],
     { unimplemented!() }
 }
+
+pub struct DwarfRegisterMap { pub of_frame: Ghost<int> }
+impl DwarfRegisterMap {
+    #[verifier::external_body]
+    pub fn update_from(&mut self, other: &DwarfRegisterMap) ensures final(self).of_frame@ == other.of_frame@, { unimplemented!() }
+}
+#[verifier::external_body]
+fn outline_addr_or(x: Option<RelocatedAddress>) -> (r: Result<RelocatedAddress, DbgError>) ensures r is Ok == x is Some, r is Ok ==> r->Ok_0 == x->Some_0, { unimplemented!() }
+#[verifier::external_body]
+fn outline_ctx_or<'a>(x: Option<UnwindContext<'a>>) -> (r: Result<UnwindContext<'a>, DbgError>) ensures r is Ok == x is Some, r is Ok ==> r->Ok_0 == x->Some_0, { unimplemented!() }
 
 impl ExplorationContext {
     #[verifier::external_body] pub fn new(location: Location, frame_num: u32) -> (r: ExplorationContext) ensures r.loc == location, r.frame == frame_num { unimplemented!() }
@@ -110,6 +124,20 @@ impl<'a> DwarfUnwinder<'a> {
 //@   loop 0 invariant I_u3: ucx.cfa.0 == cfas(self.debugee, pid)[ucx.depth@]
 //@   loop 0 invariant I_u4: forall|k: (RelocatedAddress, RelocatedAddress)| #[trigger] visited_frames.seen@.contains(k) ==> k.1.0 < cfas(self.debugee, pid)[ucx.depth@]
 //@   loop 0 decreases: frames(self.debugee, pid).len() - ucx.depth@
+//@ end
+
+//@ extract: impl DwarfUnwinder<'a> / fn restore_registers_at_frame
+//@   sig: pub fn restore_registers_at_frame(&self, pid: Pid, registers: &mut DwarfRegisterMap, frame_num: u32) -> (r: Result<(), DbgError>)
+//@   requires R_stack: wf_stack(self.debugee, pid)
+//@   ensures E_rr_frame: r is Ok && frame_num > 0 ==> final(registers).of_frame@ == frame_num
+//@   ensures E_rr_zero: frame_num == 0 ==> final(registers).of_frame@ == old(registers).of_frame@
+//@   outline O_loc0: `self .debugee .tracee_ctl() .tracee_ensure(pid) .location(self.debugee)?` => `self.outline_frame0_location(pid)?`
+//@   outline O_ucx0: `UnwindContext::new( self.debugee, DwarfRegisterMap::from(RegisterMap::current(ecx.pid_on_focus())?), &ecx, )? .ok_or(UnwindNoContext)?` => `outline_ctx_or(self.outline_ucx0(&ecx)?)?`
+//@   rewrite W_for: `for _ in 0..$n {` => `let for_n_: u32 = $n; let mut fr_: u32 = 0; while fr_ < for_n_ { fr_ += 1;`
+//@   outline O_ra: `unwind_ucx.return_address().ok_or(UnwindTooDeepFrame)?` => `outline_addr_or(unwind_ucx.return_address())?`
+//@   outline O_next: `UnwindContext::next(unwind_ucx, &ecx)?.ok_or(UnwindNoContext)?` => `outline_ctx_or(UnwindContext::next(unwind_ucx, &ecx)?)?`
+//@   loop 0 invariant I_rr: fr_ <= for_n_ && unwind_ucx.depth@ == fr_ && ecx.frame == fr_ && unwind_ucx.debugee == self.debugee && unwind_ucx.location.pid == pid && ecx.loc.pid == pid && unwind_ucx.depth@ < frames(self.debugee, pid).len()
+//@   loop 0 decreases: for_n_ - fr_
 //@ end
 }
 
